@@ -5,12 +5,23 @@
            for the discipline, for EVERY trace.
    Part 2: the instrumented model of the response writer (nbhttp/response.go + releaseResponse) obeys the discipline
            for ALL handler programs, ALL allocator behaviours and ALL conn.Write failure patterns.
-   What is NOT proved here (decided by the differential run of harness/cmd/bufown only): that the real parser,
-   body reader, websocket connection and nbio write queue obey the discipline (c11_discipline for those components);
-   the correspondence of RespAlloc.v with response.go is tested, not proved. *)
-From Coq Require Import List Arith NArith Bool.
+   Part 3: the instrumented model of the connection write queue (conn_unix.go: Write, Writev, Sendfile, flush, Close)
+           for ALL operation sequences, ALL kernel scripts (short writes, EAGAIN, EINTR, fatal errno), ALL allocator
+           answers (moving Appends, capacities), close at any point: the queued buffers are EXACTLY the live buffers,
+           each held once; a closed connection has returned everything.
+   Part 4: the instrumented model of the WebSocket receive path (Parse, readAll, the handlers' hand-over with
+           ReleasePayload on or off, the recover path, CloseAndClean) for ALL frame streams, ALL segmentations, ALL
+           inflate outcomes: cache, message and what the application was given are exactly the live buffers; after
+           close only what the application was given is live, with ReleasePayload nothing.
+   Part 5: the instrumented model of the HTTP BodyReader for ALL sequences of append / Read / Close.
+   What is NOT proved here (decided by the differential run of harness/cmd/bufown only): the HTTP parser's cache, the
+   WebSocket send path (writeFrame's send queue, WriteMessage's compression buffer) and the upgrader (c11_discipline for
+   those is oracle-only); the correspondence of every model with the code is tested (event trace and per-operation
+   observations of the real code on the same programs), not proved. *)
+From Coq Require Import List Arith NArith ZArith Bool.
 Import ListNotations.
 Require Import BufOwner BufOwnerProofs RespAlloc RespAllocProofs RespAllocOps RespAllocFinish.
+Require Import ExactOwn WqAlloc WqAllocProofs BodyAlloc BodyAllocProofs WsRecvAlloc WsRecvProofs WsRecvData WsRecvLoop WsRecvSide.
 Open Scope nat_scope.
 
 (* ---- Part 1: the checker ---- *)
@@ -61,16 +72,88 @@ Proof. exact (fun H => owners_live _ x (I_run_ops ops _ [] (I_new q mv fl)) H). 
 Theorem c11_response_released q mv fl ops : owners (fst (run_exchange q mv fl ops)) = [].
 Proof. exact (proj2 (I_exchange q mv fl ops)). Qed.
 
-(* partial: the statement of DESIGN.md (c11_discipline for every component) is proved for the response writer only;
-   HttpParser, BodyReader, WsCodec and ConnIO have no instrumented model yet. *)
+(* ---- Part 3: the connection write queue ---- *)
+(* mb: Engine.MaxWriteBufferSize, mv: which Appends return a new pointer, cs: the capacities the allocator hands out,
+   ops: Write / Writev / Sendfile / flush / Close, each with its kernel script *)
+Theorem c11_wq_discipline mb mv cs ops : disciplined (wq_trace mb mv cs ops).
+Proof. exact (proj1 (ok_trace_iff _) (wq_ok mb mv cs ops)). Qed.
+
+(* at every point: what the allocator considers live is exactly what the queue holds (nothing leaked, nothing stale) *)
+Theorem c11_wq_queue_exactly_live mb mv cs ops x :
+  let q := fst (qrun (q0 mb mv cs) ops) in
+  In x (live_at_end (trace (qa q))) <-> In x (qids (wlist q)).
+Proof. exact (wq_queue_exact mb mv cs ops x). Qed.
+
+Theorem c11_wq_buffers_distinct mb mv cs ops : NoDup (qids (wlist (fst (qrun (q0 mb mv cs) ops)))).
+Proof. exact (wq_queue_nodup mb mv cs ops). Qed.
+
+(* quiescence after close (Close, a fatal errno, overflow): everything taken was returned *)
+Theorem c11_wq_closed_all_returned mb mv cs ops :
+  let q := fst (qrun (q0 mb mv cs) ops) in
+  WqAlloc.closed q = true -> live_at_end (trace (qa q)) = [].
+Proof. exact (wq_closed_all_returned mb mv cs ops). Qed.
+
+(* ---- Part 4: the WebSocket receive path ---- *)
+(* c: ReleasePayload, handlers, compression, limits; frames: the stream; ops: Parse of the next n bytes / CloseAndClean *)
+Theorem c11_ws_discipline c mv frames ops : disciplined (ws_trace c mv frames ops).
+Proof. exact (proj1 (ok_trace_iff _) (ws_ok c mv frames ops)). Qed.
+
+Theorem c11_ws_owners_exactly_live c mv frames ops x :
+  let w := fst (wrun c (w0 mv frames) ops) in
+  In x (live_at_end (trace (wa w))) <-> In x (wowners w).
+Proof. exact (ws_exact c mv frames ops x). Qed.
+
+Theorem c11_ws_owners_distinct c mv frames ops : NoDup (wowners (fst (wrun c (w0 mv frames) ops))).
+Proof. exact (ws_nodup c mv frames ops). Qed.
+
+Theorem c11_ws_closed_only_given c mv frames ops x :
+  let w := fst (wrun c (w0 mv frames) ops) in
+  wclosed w = true -> (In x (live_at_end (trace (wa w))) <-> In x (given w)).
+Proof. exact (ws_closed_only_given c mv frames ops x). Qed.
+
+Theorem c11_ws_closed_release_all_returned c mv frames ops :
+  let w := fst (wrun c (w0 mv frames) ops) in
+  wrelease c = true -> wclosed w = true -> live_at_end (trace (wa w)) = [].
+Proof. exact (ws_closed_release_all_returned c mv frames ops). Qed.
+
+(* ---- Part 5: the HTTP BodyReader ---- *)
+Theorem c11_body_discipline mx cs ops : disciplined (body_trace mx cs ops).
+Proof. exact (proj1 (ok_trace_iff _) (body_ok mx cs ops)). Qed.
+
+Theorem c11_body_buffers_exactly_live mx cs ops x :
+  let b := fst (brun (body0 mx cs) ops) in
+  In x (live_at_end (trace (ba b))) <-> In x (bids (bufs b)).
+Proof. exact (body_exact mx cs ops x). Qed.
+
+Theorem c11_body_buffers_distinct mx cs ops : NoDup (bids (bufs (fst (brun (body0 mx cs) ops)))).
+Proof. exact (body_nodup mx cs ops). Qed.
+
+(* Close of an open reader (by the handler, or by releaseRequest) returns everything *)
+Theorem c11_body_close_returns_all mx cs ops :
+  bclosed (fst (brun (body0 mx cs) ops)) = false -> live_at_end (body_trace mx cs (ops ++ [BClose])) = [].
+Proof. exact (body_close_returns_all mx cs ops). Qed.
+
+(* partial: DESIGN.md's c11_discipline ("one theorem per component") is proved for the response writer, the write
+   queue, the WebSocket receive path and the BodyReader; the HTTP parser cache, the WebSocket send path and the
+   upgrader have no instrumented model. *)
 
 (* non-vacuity: a chunked response whose second conn.Write fails performs and passes Malloc/Append/Use/Free events;
-   the pattern of the repaired defect D8 (free, keep appending, free again) is rejected at the Append *)
+   the pattern of the repaired defect D8 (free, keep appending, free again) is rejected at the Append;
+   a write queue that coalesces, re-allocates, is flushed piecewise and closed with a backlog; a fragmented compressed
+   WebSocket message with a frame handler; a body read across two buffers *)
 Example c11_nonvacuous :
   let q := Build_req [72;84;84;80;47;49;46;49]%N true false in
   let t := exchange_trace q [true] [false; true] [HWrite 10; HFlush; HWrite 70000] in
   length t = 11 /\ nth_error t 6 = Some (EFree 1) /\ ok_trace t = true /\
-  check_trace [EMalloc 0; EAppend 0 0; EUse 0; EFree 0; EAppend 0 0; EFree 0] = Some (4, VAppendAfterFree).
+  check_trace [EMalloc 0; EAppend 0 0; EUse 0; EFree 0; EAppend 0 0; EFree 0] = Some (4, VAppendAfterFree) /\
+  wq_trace 0%Z [true] [64%N] [QWrite 100000 [Took 40]; QWrite 10 []; QWrite 100 []; QFlush [Took 70000; EIntr]; QClose]
+    = [EMalloc 0; EMalloc 1; EMalloc 2; EFree 1; EAppend 2 3; EUse 0; EFree 0; EFree 3] /\
+  ws_trace (mkcfg true true true true 0 0) [] 
+     [mkf ODataFirst false true false 2 true 10 false false false IOk 0 0; mkf OCont true false false 2 true 5 false false false IOk 40 1]
+     [WParse 16; WParse 11; WClose]
+    = [EMalloc 0; EMalloc 1; EMalloc 2; EFree 0; EUse 1; EFree 1; EMalloc 3; EMalloc 4; EAppend 2 2; EMalloc 5; EAppend 5 5; EFree 2;
+       EFree 3; EUse 5; EFree 5; EUse 4; EFree 4] /\
+  body_trace 0 [] [BAppend 10; BAppend 5; BRead 12; BClose] = [EMalloc 0; EMalloc 1; EUse 0; EFree 0; EUse 1; EFree 1].
 Proof. vm_compute. repeat split. Qed.
 
 Print Assumptions c11_checker_sound.
@@ -83,3 +166,16 @@ Print Assumptions c11_response_discipline_prefix.
 Print Assumptions c11_response_buffers_distinct.
 Print Assumptions c11_response_buffers_live.
 Print Assumptions c11_response_released.
+Print Assumptions c11_wq_discipline.
+Print Assumptions c11_wq_queue_exactly_live.
+Print Assumptions c11_wq_buffers_distinct.
+Print Assumptions c11_wq_closed_all_returned.
+Print Assumptions c11_ws_discipline.
+Print Assumptions c11_ws_owners_exactly_live.
+Print Assumptions c11_ws_owners_distinct.
+Print Assumptions c11_ws_closed_only_given.
+Print Assumptions c11_ws_closed_release_all_returned.
+Print Assumptions c11_body_discipline.
+Print Assumptions c11_body_buffers_exactly_live.
+Print Assumptions c11_body_buffers_distinct.
+Print Assumptions c11_body_close_returns_all.
